@@ -111,7 +111,7 @@ PROPS["C02"] = {
 
 PROPS["C18"] = {
     "drivers": [MAIN, dict(COOKIE, prop="C18")],
-    "rule": "also: clears while the store refuses the delete (the browser is still told to drop its ticket); callbacks delivered as a form POST (state and code in the body, in the query, split between the two, another login's state, none); histories in which a save and a clear share one response (the clear's deletions compared with the model given the names just set); slow logins: the proxy's clock moved 2 s .. 16 min between start and callback x cookie-refresh x cookie-expire x csrf-per-request; cookie options given as flags (comma-separated, repeated, mixed), configuration file and environment, loaded by main's loadConfiguration; and: (1) cookies.MakeCookieFromOptions on option combinations {secure, httponly, samesite x4, path x2, 7 domain sets of 0-3 nested "
+    "rule": "also: eight browsers saving concurrently with both stores, each loading its own session back; clears while the store refuses the delete (the browser is still told to drop its ticket); callbacks delivered as a form POST (state and code in the body, in the query, split between the two, another login's state, none); histories in which a save and a clear share one response (the clear's deletions compared with the model given the names just set); slow logins: the proxy's clock moved 2 s .. 16 min between start and callback x cookie-refresh x cookie-expire x csrf-per-request; cookie options given as flags (comma-separated, repeated, mixed), configuration file and environment, loaded by main's loadConfiguration; and: (1) cookies.MakeCookieFromOptions on option combinations {secure, httponly, samesite x4, path x2, 7 domain sets of 0-3 nested "
             "domains, 3 names, 4 expirations} x 17 hosts (exact, sub-domain, look-alike, unrelated, with port, IPv6, upper case, trailing dot, "
             "empty) x X-Forwarded-Host {absent, matching, unrelated} x reverse-proxy on/off: the serialised cookie is compared byte for byte "
             "with the model; (2) a monitor on every Set-Cookie of complete flows (unauthenticated, start, callback, request, refresh, bad "
@@ -170,7 +170,7 @@ PROPS["C08"] = {
 
 PROPS["C07"] = {
     "drivers": [MAIN],
-    "rule": "also: negated rules anchored at the end of the path; 16 concurrent auth-only requests of four sessions under three query constraints; session values that are format strings, templates or header syntax when taken as anything but data; the allowed-groups rule under ten provider configurations (oidc, keycloak-oidc with and without roles, adfs, gitlab with projects / gitlab-group, entra-id, keycloak with and without keycloak-group) x 7 group sets x 3 endpoints; the nine legacy header options given as command-line flags (all 512 combinations), configuration file and environment, loaded by main's loadConfiguration and compared with the model's lists; and: (1) middleware.NewRequestHeaderInjector / NewResponseHeaderInjector on 8 structured configurations (mixed-case names, preserve "
+    "rule": "also: auth-only requests of five methods with constraint parameters in a urlencoded body; negated rules anchored at the end of the path; 16 concurrent auth-only requests of four sessions under three query constraints; session values that are format strings, templates or header syntax when taken as anything but data; the allowed-groups rule under ten provider configurations (oidc, keycloak-oidc with and without roles, adfs, gitlab with projects / gitlab-group, entra-id, keycloak with and without keycloak-group) x 7 group sets x 3 endpoints; the nine legacy header options given as command-line flags (all 512 combinations), configuration file and environment, loaded by main's loadConfiguration and compared with the model's lists; and: (1) middleware.NewRequestHeaderInjector / NewResponseHeaderInjector on 8 structured configurations (mixed-case names, preserve "
             "on/off, two entries for one name, prefix, basic-auth encoding, secret values, several values per header, unknown and time "
             "claims) x 6 sessions (nil, every field empty or multi-valued, commas inside values) x 5 client header sets spoofing every "
             "configured name in lower/upper/mixed case, repeated lines and comma-joined values: the header multimap seen by the next "
@@ -315,7 +315,7 @@ PROPS["C04"] = {
 }
 PROPS["C05"] = {
     "drivers": [MAIN],
-    "rule": "also: the legacy OIDC switches (skip-nonce, skip-issuer-verification) given as flags, configuration file and environment and loaded by main's loadConfiguration; the byte-identical ID token of a completed login answered to later logins (same and other browser; oidc, keycloak-oidc); the challenge method in 12 spellings (what is sent declares a method the challenge matches; the verifier in clear only under 'plain'); and: two overlapping logins per browser x provider behaviours {echo the hashed nonce, the other login's, empty, absent, null, the raw "
+    "rule": "also: eight goroutines running whole logins concurrently and hammering the nonce-hashing step (each nonce sent or checked is the login's own); the legacy OIDC switches (skip-nonce, skip-issuer-verification) given as flags, configuration file and environment and loaded by main's loadConfiguration; the byte-identical ID token of a completed login answered to later logins (same and other browser; oidc, keycloak-oidc); the challenge method in 12 spellings (what is sent declares a method the challenge matches; the verifier in clear only under 'plain'); and: two overlapping logins per browser x provider behaviours {echo the hashed nonce, the other login's, empty, absent, null, the raw "
             "nonce, a number, a prefix, case-flipped} x code-challenge method {none, S256, plain} x skip-nonce x csrf-per-request on the real "
             "proxy with an in-memory provider that records the verifier presented at redemption; the CSRF cookie is decrypted with the "
             "standard library to obtain the raw nonces and verifier for the leak scan and the challenge check; non-trivial = all",
@@ -335,7 +335,7 @@ PROPS["C05"] = {
 PROVIDERS = {"pkg": "providers", "overlay": "providers"}
 PROPS["C14"] = {
     "drivers": [dict(MAIN, timeout=3000), dict(PROVIDERS, prop="C14")],
-    "rule": "also: refresh answers the provider reports as malformed (opaque / truncated access token at Keycloak-OIDC) must not be persisted; the provider sweep's login pipeline mirrors the callback (enrich, validate, authorise) with 'a token response without an access token gives no session'; GitHub / Bitbucket logins whose e-mail lookup answers well-formed JSON without a usable e-mail under three e-mail-domain configurations (compared with the model's admission rule); a Google provider with a group restriction (Admin SDK redirected to the in-process provider) in the provider sweep, with 'an error status at an endpoint a refresh reads extends no session'; and: every identity-provider call position of the login (token endpoint, profile endpoint for a missing claim and for email_verified, "
+    "rule": "also: bearer tokens with wrongly typed realm / client role claims under Keycloak-OIDC; refresh answers the provider reports as malformed (opaque / truncated access token at Keycloak-OIDC) must not be persisted; the provider sweep's login pipeline mirrors the callback (enrich, validate, authorise) with 'a token response without an access token gives no session'; GitHub / Bitbucket logins whose e-mail lookup answers well-formed JSON without a usable e-mail under three e-mail-domain configurations (compared with the model's admission rule); a Google provider with a group restriction (Admin SDK redirected to the in-process provider) in the provider sweep, with 'an error status at an endpoint a refresh reads extends no session'; and: every identity-provider call position of the login (token endpoint, profile endpoint for a missing claim and for email_verified, "
             "key retrieval), bearer (key retrieval) and refresh (token endpoint; expired and invalid old sessions) flows x 16 response kinds "
             "(5xx, 4xx, connection reset, timeout, empty body, truncated JSON, non-JSON, JSON array, missing id_token / access_token, "
             "id_token of wrong type / garbage, oversized body, wrongly typed expires_in) x 13 wrongly typed claims, on both stores; the three "
@@ -419,7 +419,7 @@ PROPS["C19"] = {
 
 PROPS["C01"] = {
     "drivers": [dict(MAIN, timeout=3000)],
-    "rule": "also: after a refresh the NEW ID token's groups decide (still member / other group / empty list / no claim) on every disclosing endpoint and both stores; stale stored sessions whose provider will not refresh them, with nonce checking on and off (ID token valid / expired / unknown key / other issuer / other audience / other or no nonce) on every disclosing endpoint and both stores; and: every request of the grid on the cookie store is also given AS SENT (cookies, method, target, peer address) to the composed model serve_request, whose bypass decision and stored credential are computed by the model from the configured rules and the signed-cookie model; product on the real proxy: 22-23 credential states (none, valid cookie, valid but wrong e-mail domain / group, tampered, truncated, "
+    "rule": "also: a stored session removed between a request's load and its reload under the refresh lock; after a refresh the NEW ID token's groups decide (still member / other group / empty list / no claim) on every disclosing endpoint and both stores; stale stored sessions whose provider will not refresh them, with nonce checking on and off (ID token valid / expired / unknown key / other issuer / other audience / other or no nonce) on every disclosing endpoint and both stores; and: every request of the grid on the cookie store is also given AS SENT (cookies, method, target, peer address) to the composed model serve_request, whose bypass decision and stored credential are computed by the model from the configured rules and the signed-cookie model; product on the real proxy: 22-23 credential states (none, valid cookie, valid but wrong e-mail domain / group, tampered, truncated, "
             "expired, signed with another secret, CSRF cookie under the session name, garbage, ticket for a deleted key, valid bearer, bearer "
             "with other key / wrong audience / expired / alg none, valid basic, wrong password, unknown user, malformed Authorization, "
             "valid cookie + bad bearer; a credential-less request right after an authenticated one) x 11 endpoints (protected paths, API "
